@@ -93,7 +93,8 @@ func (lalr *LALR1) UseDefaultResolveConflict(act01, act02 *Action) *Action {
 		return act02
 	} else {
 		// double reduce
-		if act01.ActionIndex > act02.ActionIndex {
+		// ActionIndex of a reduce is the negated rule index
+		if act01.ActionIndex < act02.ActionIndex {
 			return act02
 		} else {
 			return act01
